@@ -71,9 +71,9 @@ def _c12_one(args):
                 if third:
                     # a second reset and a third repetition, on either Solver (or a third one)
                     ops += [{'op': 'reset'}, init]
-                    sid3 = rnd.choice([1, sid, 3])
-                    if sid3 == 3:
-                        ops.append({'op': 'new_solver', 'sid': 3})
+                    sid3 = rnd.choice([1, sid, sid + 1])          # (solver ids are creation order)
+                    if sid3 == sid + 1:
+                        ops.append({'op': 'new_solver', 'sid': sid3})
                     ops += [dict(o, sid=sid3) for o in copy.deepcopy(sched)]
                 t = solver_rec.execute(f'r{i}', dict(inst, ops=ops), rnd if rnd.random() < 0.3 else None)
                 if any(o.get('outcome', 'ok') != 'ok' for o in t['ops']) or len(t['epochs']) != (3 if third else 2):
